@@ -13,9 +13,10 @@
      * _compile_actions: the expressions inspected are preconditions + effect values + the target fluent expression of
        every increase / decrease effect + effect conditions ([a_exprs]); for every tracked fluent expression read there
        the companion applied to THE SAME ARGUMENT EXPRESSIONS is added with add_precondition ([gexp], [add_pre]: TRUE
-       and duplicates skipped); for every effect target of a tracked symbol ([affected], conditional effects and forall
-       effects included) that is not itself among the reads, the UNCONDITIONAL effect `companion(args) := true` without
-       forall variables is appended ([def_effect]);
+       and duplicates skipped); for every effect target of a tracked symbol (conditional effects and forall
+       effects included) that is not itself among the reads, the effect `companion(args) := true` WITH THE CONDITION AND
+       THE FORALL VARIABLES of the assigning effect is appended, once per (target, condition, variables)
+       ([track_effect], [dedup_e]; since fix c019d78 - before, the tracker was set unconditionally);
      * _compile_goals: the companions of the tracked fluent expressions read in the goals are added as goals;
      * trajectory constraints (state invariants) are cloned unchanged; the tracked fluents keep their type.
    Python iterates over `set`s where the model uses duplicate-free lists in traversal order: the correspondence
@@ -34,6 +35,19 @@ Fixpoint dedup_f (l : list fexp) : list fexp :=
   match l with
   | [] => []
   | x :: l' => x :: filter (fun y => negb (fexp_eqb x y)) (dedup_f l')
+  end.
+
+Definition effect_eqb (a b : effect) : bool :=
+  (e_fl a =? e_fl b)%N && list_expr_eqb (e_args a) (e_args b) && expr_eqb (e_val a) (e_val b) &&
+  expr_eqb (e_cond a) (e_cond b) &&
+  match e_kind a, e_kind b with KAssign, KAssign | KInc, KInc | KDec, KDec => true | _, _ => false end &&
+  vars_eqb (e_vars a) (e_vars b) && Bool.eqb (e_isbool a) (e_isbool b).
+
+(* the `added_trackers` set: one tracker per (target, condition, forall variables) *)
+Fixpoint dedup_e (l : list effect) : list effect :=
+  match l with
+  | [] => []
+  | x :: l' => x :: filter (fun y => negb (effect_eqb x y)) (dedup_e l')
   end.
 
 Definition is_nil {A} (l : list A) : bool := match l with [] => true | _ => false end.
@@ -67,25 +81,22 @@ Section UinrCompile.
 
   Definition a_reads (a : action) : list fexp := flat_map reads (a_exprs a).          (* undef_fluent_exps *)
 
-  (* affected_undef_fluent_exps *)
-  Definition affected (a : action) : list fexp :=
-    flat_map (fun e => match ucomp (e_fl e) with Some _ => [(e_fl e, e_args e)] | None => [] end) (a_effs a).
+  (* action.add_effect(is_value_defined applied to the args, True, eff.condition, eff.forall) for every effect whose
+     target is a tracked fluent expression that is not among the reads *)
+  Definition mk_tracker (d : N) (e : effect) : effect :=
+    {| e_fl := d; e_args := e_args e; e_val := EBool true; e_cond := e_cond e; e_kind := KAssign;
+       e_vars := e_vars e; e_isbool := true |}.
 
-  (* action.add_effect(is_value_defined applied to the args, True) *)
-  Definition def_effect (r : fexp) : list effect :=
-    match ucomp (fst r) with
-    | Some d => [{| e_fl := d; e_args := snd r; e_val := EBool true; e_cond := EBool true; e_kind := KAssign;
-                    e_vars := []; e_isbool := true |}]
+  Definition track_effect (a : action) (e : effect) : list effect :=
+    match ucomp (e_fl e) with
+    | Some d => if existsb (fexp_eqb (e_fl e, e_args e)) (a_reads a) then [] else [mk_tracker d e]
     | None => []
     end.
-
-  Definition set_targets (a : action) : list fexp :=
-    filter (fun r => negb (existsb (fexp_eqb r) (a_reads a))) (dedup_f (affected a)).
 
   Definition u_action (a : action) : action :=
     {| a_params := a_params a;
        a_pre := fold_left add_pre (map gexp (dedup_f (a_reads a))) (a_pre a);
-       a_effs := a_effs a ++ flat_map def_effect (set_targets a) |}.
+       a_effs := a_effs a ++ dedup_e (flat_map (track_effect a) (a_effs a)) |}.
 
   Definition sig_of (P : problem) (f : N) : list N :=
     match find (fun fd => (fd_id fd =? f)%N) (p_fluents P) with Some fd => fd_sig fd | None => [] end.
@@ -152,16 +163,19 @@ Section UinrCompile.
          evaluation is strict, a top-level guard is equivalent);
        - the value of an UNCONDITIONAL effect without forall variables, the condition of an effect without forall
          variables, the target of an unconditional increase / decrease;
+       - a CONDITIONAL ASSIGNMENT to a tracked fluent whose value reads no tracked fluent (since fix c019d78);
      and where they are NOT (refuted, see Proofs/LayerA_Uinr_proofs.v):
-       - a conditional assignment to a tracked fluent (the companion is set unconditionally: unsound),
        - the value of a conditional effect / a conditional increase of a tracked fluent (guard required although the
-         effect may not fire: incomplete);
-     target arguments must not read tracked fluents (the read is not guarded by the compiler). *)
+         effect may not fire: incomplete, finding C07-uinr-guard-on-conditional-read);
+     target arguments must not read tracked fluents (the read is not guarded by the compiler); effects with forall
+     variables (outside the compiler's supported kind) must not touch tracked fluents. *)
   Definition effect_ok (e : effect) : bool :=
     negb (is_ucomp (e_fl e)) && forallb upure (e_args e) && uq (e_val e) && uq (e_cond e) &&
     (if is_uncond e && is_nil (e_vars e) then true
-     else match ucomp (e_fl e) with Some _ => false | None => true end && upure (e_val e) &&
-          (is_nil (e_vars e) || upure (e_cond e))).
+     else upure (e_val e) &&
+          (if is_nil (e_vars e)
+           then match ucomp (e_fl e) with Some _ => is_kassign e | None => true end
+           else match ucomp (e_fl e) with Some _ => false | None => true end && upure (e_cond e))).
 
   Definition action_ok (a : action) : bool := forallb uq (a_pre a) && forallb effect_ok (a_effs a).
 
